@@ -221,6 +221,15 @@ enum Inject {
     /// for writing, write, copy_file_range, sendfile, ftruncate, rename, link, unlink ...), or in
     /// the middle of it (a write / copy that transfers half of its bytes)
     Sys { k: u64, mid: bool },
+    /// the application's own progress callback panics when cluster `cluster` is handed to it
+    /// (`written`: when it is reported written): a part of the process - a compression worker or
+    /// the writer thread - dies in the middle of the creation
+    CallbackPanic { cluster: u32, written: bool },
+    /// (scenarios with an extra content pack) the extra pack's output file is named by a path
+    /// relative to the process's working directory, which is not the destination directory. The
+    /// creator may refuse that (however it does); it must not publish a container whose extra pack
+    /// cannot be found
+    RelativeExtraPath,
 }
 
 impl Inject {
@@ -244,6 +253,8 @@ impl Inject {
             Inject::Fsize { limit, ignore_signal } => format!("fsize:{limit}:{}", if *ignore_signal { "efbig" } else { "kill" }),
             Inject::FsizeFrom { k, limit, ignore_signal } => format!("fsizefrom:{k}:{limit}:{}", if *ignore_signal { "efbig" } else { "kill" }),
             Inject::Sys { k, mid } => format!("sys:{k}:{}", if *mid { "mid" } else { "before" }),
+            Inject::CallbackPanic { cluster, written } => format!("cbpanic:{cluster}:{}", if *written { "written" } else { "handled" }),
+            Inject::RelativeExtraPath => "relextra".into(),
             Inject::ReadOnlyDir => "rodir".into(),
             Inject::ReadOnlyDirIo { k, decision } => {
                 let inner = Inject::Io { k: *k, decision: *decision }.encode();
@@ -262,6 +273,8 @@ impl Inject {
         Some(match p[0] {
             "none" => Inject::None,
             "rodir" => Inject::ReadOnlyDir,
+            "relextra" => Inject::RelativeExtraPath,
+            "cbpanic" => Inject::CallbackPanic { cluster: p[1].parse().ok()?, written: p[2] == "written" },
             "sys" => Inject::Sys { k: p[1].parse().ok()?, mid: p[2] == "mid" },
             "fsizefrom" => Inject::FsizeFrom { k: p[1].parse().ok()?, limit: p[2].parse().ok()?, ignore_signal: p[3] == "efbig" },
             "benign" => Inject::Benign { seed: p[1].parse().ok()? },
@@ -294,6 +307,9 @@ impl Inject {
             Inject::FsizeFrom { ignore_signal: true, .. } => "rlimit-fsize-from-an-operation-on-efbig",
             Inject::Sys { mid: false, .. } => "die-before-system-call",
             Inject::Sys { mid: true, .. } => "die-in-the-middle-of-a-write-system-call",
+            Inject::CallbackPanic { written: false, .. } => "application-callback-panics-in-a-worker-or-writer (cluster handled)",
+            Inject::CallbackPanic { written: true, .. } => "application-callback-panics-in-the-writer (cluster written)",
+            Inject::RelativeExtraPath => "extra-pack-named-relative-to-another-working-directory",
             Inject::ReadOnlyDir => "destination-directory-not-writable",
             Inject::ReadOnlyDirIo { .. } => "destination-directory-not-writable+io-fault",
             Inject::Io { decision, .. } => match decision {
@@ -380,6 +396,33 @@ pub fn child_main(args: &Args) -> ! {
             opts.sim_cfg.err_at_call = Some(*call);
         }
         Inject::Sys { .. } => hooks.set_plan(Some(IoPlan::Record)),
+        Inject::CallbackPanic { cluster, written } => {
+            hooks.set_plan(Some(IoPlan::Record));
+            struct Bomb {
+                cluster: u32,
+                written: bool,
+                fired: PathBuf,
+            }
+            impl jubako::creator::Progress for Bomb {
+                fn handle_cluster(&self, idx: u32, _compressed: bool) {
+                    if !self.written && idx == self.cluster {
+                        let _ = std::fs::write(&self.fired, "callback");
+                        panic!("the application's progress callback panics (cluster {idx} handled)");
+                    }
+                }
+                fn handle_cluster_written(&self, idx: u32) {
+                    if self.written && idx == self.cluster {
+                        let _ = std::fs::write(&self.fired, "callback");
+                        panic!("the application's progress callback panics (cluster {idx} written)");
+                    }
+                }
+            }
+            opts.progress = std::sync::Arc::new(Bomb { cluster: *cluster, written: *written, fired: case_dir.join("fired.txt") });
+        }
+        Inject::RelativeExtraPath => {
+            hooks.set_plan(Some(IoPlan::Record));
+            std::env::set_current_dir(case_dir.parent().unwrap()).unwrap_or_else(|e| simcore::harness_error(&format!("C09: chdir: {e}")));
+        }
         Inject::FsizeFrom { k, limit, ignore_signal } => {
             if *ignore_signal {
                 unsafe {
@@ -432,6 +475,8 @@ pub fn child_main(args: &Args) -> ! {
         }
     }
     crate::hooks::set_fired_file(Some(case_dir.join("fired.txt")));
+    let mut logical = logical;
+    logical.opts.extra_pack_paths_relative_to_cwd = inject == Inject::RelativeExtraPath;
     let r = gen::build(&logical, &case_dir, NAME, &opts);
     // normal return path: write the op log and what fired
     let st = hooks.st.lock().unwrap();
@@ -634,6 +679,16 @@ fn make_reference(s: &Scenario, sc_file: &Path, dir: &Path, old: bool) -> Refere
 fn injections(s: &Scenario, r: &Reference, tier: Tier) -> Vec<Inject> {
     let mut out = vec![];
     let mut rng = Rng::derive(s.seed, "c09-injections", 0);
+    // a part of the process dies: the application's progress callback panics at cluster k (more
+    // indices than any scenario has clusters: the later ones never fire)
+    for cluster in 0..6 {
+        for written in [false, true] {
+            out.push(Inject::CallbackPanic { cluster, written });
+        }
+    }
+    if s.extra {
+        out.push(Inject::RelativeExtraPath);
+    }
     for (k, (kind, _file, len)) in r.ops.iter().enumerate() {
         let k = k as u64;
         out.push(Inject::Io {
@@ -977,6 +1032,8 @@ pub fn worker_main(args: &Args, w: usize, n: usize) -> ! {
                 // armed when the operation was reached (it bites only a creator that still writes)
                 Inject::FsizeFrom { .. } => true,
                 Inject::Sys { .. } => status == "died",
+                Inject::CallbackPanic { .. } => fired.is_some(),
+                Inject::RelativeExtraPath => true,
                 Inject::ReadOnlyDir => status != "ok",
                 // fired = the armed operation was reached although the directory is not writable
                 Inject::ReadOnlyDirIo { .. } => fired.is_some(),
